@@ -403,7 +403,7 @@ func init() {
 	checks["c15"] = checkDef{"C15",
 		"programs: a read-write prelude (buckets with different owners/ACLs/policies, objects, tags) followed, after a restart with --readonly, by random mutating and reading requests of every stage-1 kind by root, admin, userplus and user callers; each step compared with Model.Gw.step and judged by a byte-exact storage snapshot (data, modes, xattrs). Non-trivial = a program whose body reaches an existing bucket; distinct by the full op list.",
 		[]checkFn{func(a lib.Args, res *lib.Result) error {
-			return runPrograms(a, res, progOpts{name: "readonly", prop: "C15", programs: tierN(a, 60, 1500), maxOps: 40, readonly: true,
+			return runPrograms(a, res, progOpts{name: "readonly", prop: "C15", programs: tierN(a, 200, 2500), maxOps: 40, readonly: true,
 				setupOps: func(g *prog.Gen) []*prog.Op { return g.Prelude() }, seedOff: 15,
 				classify: func(s *prog.Step, class string) (string, string) {
 					if class == "fine" {
@@ -412,7 +412,7 @@ func init() {
 					return "property", "readonly:" + s.Op.Kind + ":" + class
 				}})
 		}, func(a lib.Args, res *lib.Result) error {
-			return runPrograms(a, res, progOpts{name: "readonly-versioned", prop: "C15", programs: tierN(a, 20, 500), maxOps: 40, readonly: true, versioning: true,
+			return runPrograms(a, res, progOpts{name: "readonly-versioned", prop: "C15", programs: tierN(a, 60, 800), maxOps: 40, readonly: true, versioning: true,
 				setupOps: func(g *prog.Gen) []*prog.Op { return g.Prelude() }, seedOff: 16,
 				classify: func(s *prog.Step, class string) (string, string) {
 					if class == "fine" {
